@@ -93,9 +93,13 @@ class _ThreadingShim:
 
 class LineSched(SqlSched):
     def __init__(self, line_targets: Iterable[Any] = (), lock_modules: Sequence[str] = (), patch: Sequence[tuple[str, str]] = (),
-                 max_steps: int = 20000):
+                 max_steps: int = 20000, deep_targets: Iterable[Any] = ()):
         super().__init__(patch=patch, max_steps=max_steps)
         self.line_targets = list(line_targets)  # functions / methods / classes whose lines are yield points
+        # functions under which EVERY executed Python line is a yield point, also in callees and in the standard
+        # library (e.g. a container whose `setdefault` is Python code): PY_START/PY_RETURN track the depth per thread
+        self.deep_targets = list(deep_targets)
+        self._deep_codes: list[types.CodeType] = []
         self.lock_modules = list(lock_modules)
         self._codes: list[types.CodeType] = []
         self._lsaved: list[tuple[Any, str, Any]] = []
@@ -130,9 +134,20 @@ class LineSched(SqlSched):
             sys.monitoring.use_tool_id(TOOL, "verif-linesched")
         except ValueError:
             pass
-        sys.monitoring.register_callback(TOOL, sys.monitoring.events.LINE, self._on_line)
+        E = sys.monitoring.events
+        sys.monitoring.register_callback(TOOL, E.LINE, self._on_line)
         for c in self._codes:
-            sys.monitoring.set_local_events(TOOL, c, sys.monitoring.events.LINE)
+            sys.monitoring.set_local_events(TOOL, c, E.LINE)
+        if self.deep_targets:
+            for t in self.deep_targets:
+                self._deep_codes += self._codes_of(t)
+            sys.monitoring.register_callback(TOOL, E.PY_START, self._on_enter)
+            sys.monitoring.register_callback(TOOL, E.PY_RETURN, self._on_leave)
+            sys.monitoring.register_callback(TOOL, E.PY_UNWIND, self._on_unwind)
+            for c in self._deep_codes:
+                sys.monitoring.set_local_events(TOOL, c, E.LINE | E.PY_START | E.PY_RETURN)
+            # global LINE events (filtered by the per-thread depth) and PY_UNWIND (not available as a local event)
+            sys.monitoring.set_events(TOOL, E.LINE | E.PY_UNWIND)
         shim = _ThreadingShim(self)
         for m in self.lock_modules:
             mod = importlib.import_module(m)
@@ -141,11 +156,16 @@ class LineSched(SqlSched):
         return self
 
     def uninstall(self) -> None:
-        for c in self._codes:
+        for c in self._codes + self._deep_codes:
             try:
                 sys.monitoring.set_local_events(TOOL, c, 0)
             except Exception:
                 pass
+        try:
+            sys.monitoring.set_events(TOOL, 0)
+        except Exception:
+            pass
+        self._deep_codes.clear()
         try:
             sys.monitoring.register_callback(TOOL, sys.monitoring.events.LINE, None)
             sys.monitoring.free_tool_id(TOOL)
@@ -160,7 +180,31 @@ class LineSched(SqlSched):
     # -- callbacks ----------------------------------------------------------------------------------
     def _on_line(self, code: types.CodeType, line: int) -> Any:
         if getattr(_tls, "worker", None) is not None and not self._aborting:
+            if self._deep_codes and code not in self._codes_set():
+                if getattr(_tls, "deep", 0) <= 0 or code.co_filename == __file__ or "sched_sql" in code.co_filename:
+                    return None
             self._yield("line", f"{code.co_name}:{line}")
+        return None
+
+    def _codes_set(self) -> set:
+        cs = getattr(self, "_cset", None)
+        if cs is None or len(cs) != len(self._codes):
+            cs = self._cset = set(self._codes)
+        return cs
+
+    def _on_enter(self, code: types.CodeType, offset: int) -> Any:
+        if getattr(_tls, "worker", None) is not None:
+            _tls.deep = getattr(_tls, "deep", 0) + 1
+        return None
+
+    def _on_unwind(self, code: types.CodeType, offset: int, exc: Any) -> Any:
+        if code in self._deep_codes and getattr(_tls, "worker", None) is not None:
+            _tls.deep = getattr(_tls, "deep", 0) - 1
+        return None
+
+    def _on_leave(self, code: types.CodeType, offset: int, val: Any) -> Any:
+        if getattr(_tls, "worker", None) is not None:
+            _tls.deep = getattr(_tls, "deep", 0) - 1
         return None
 
     def _block_on_lock(self) -> None:
